@@ -317,3 +317,62 @@ Proof.
                 (vector_shape_frames e g1 g3 L1 L3) Hs Hs0 Hne Hok U1 U2) as H.
   rewrite H. unfold canonical_report, pc0, g2text. cbn. rewrite <- !app_assoc. reflexivity.
 Qed.
+
+(* ---------- C05 for every enzyme and every signature (symbolic, not by table) -------------- *)
+
+Lemma csub_refl c : csub c c.
+Proof. intros x Hx. exact Hx. Qed.
+
+Lemma forall2_csub_setN u : forallb (fun c => csubb c setN) u = true -> Forall2 csub u (repeat setN (length u)).
+Proof.
+  induction u as [|c u IH]; cbn; intros H; constructor.
+  - apply csubb_sound. apply andb_prop in H. tauto.
+  - apply IH. apply andb_prop in H. tauto.
+Qed.
+
+Lemma module_shape_sub e u d :
+  forallb (fun c => csubb c setN) u = true -> forallb (fun c => csubb c setN) d = true ->
+  shape_sub (module_shape e u d) (module_shape e (repeat setN (length u)) (repeat setN (length d))).
+Proof. intros Hu Hd. unfold shape_sub, module_shape. cbn. repeat split; auto using forall2_csub_setN. Qed.
+
+Lemma vector_shape_sub e g1 g3 :
+  forallb (fun c => csubb c setN) g1 = true -> forallb (fun c => csubb c setN) g3 = true ->
+  shape_sub (vector_shape e g1 g3) (vector_shape e (repeat setN (length g1)) (repeat setN (length g3))).
+Proof. intros Hu Hd. unfold shape_sub, vector_shape. cbn. repeat split; auto using forall2_csub_setN. Qed.
+
+(* a module part with ANY signature (classes within N, of the enzyme's overhang length) over ANY
+   enzyme accepts a record with at most one occurrence of the generic structure iff the generic
+   module class accepts it and its overhangs fit the signature *)
+Theorem part_iff_module e u d s :
+  forallb (fun c => csubb c setN) u = true -> forallb (fun c => csubb c setN) d = true ->
+  length u = eovh e -> length d = eovh e ->
+  unique_occ (module_structure e) s ->
+  is_valid (C RModule e (part_structure RModule e (atoms u) (atoms d))) s true =
+  is_valid (C RModule e (module_structure e)) s true &&
+  sig_test (module_shape e u d) (C RModule e (module_structure e)) s.
+Proof.
+  intros Hu Hd Lu Ld Hocc.
+  assert (Hg : module_structure e = shape_pat (module_shape e (repeat setN (length u)) (repeat setN (length d)))).
+  { rewrite <- module_structure_shape. unfold module_structure. now rewrite !atoms_repeat, Lu, Ld. }
+  apply (part_iff (module_shape e u d) (module_shape e (repeat setN (length u)) (repeat setN (length d)))); auto.
+  - now apply module_shape_sub.
+  - cbn [cpat part_structure]. apply module_structure_shape.
+  - now rewrite <- Hg.
+Qed.
+
+Theorem part_iff_vector e up down s :
+  forallb (fun c => csubb c setN) up = true -> forallb (fun c => csubb c setN) down = true ->
+  length up = eovh e -> length down = eovh e ->
+  unique_occ (vector_structure e) s ->
+  is_valid (C RVector e (part_structure RVector e (atoms up) (atoms down))) s true =
+  is_valid (C RVector e (vector_structure e)) s true &&
+  sig_test (vector_shape e down up) (C RVector e (vector_structure e)) s.
+Proof.
+  intros Hu Hd Lu Ld Hocc.
+  assert (Hg : vector_structure e = shape_pat (vector_shape e (repeat setN (length down)) (repeat setN (length up)))).
+  { rewrite <- vector_structure_shape. unfold vector_structure. now rewrite !atoms_repeat, Lu, Ld. }
+  apply (part_iff (vector_shape e down up) (vector_shape e (repeat setN (length down)) (repeat setN (length up)))); auto.
+  - now apply vector_shape_sub.
+  - cbn [cpat part_structure]. apply vector_structure_shape.
+  - now rewrite <- Hg.
+Qed.
